@@ -421,6 +421,16 @@ def _rename_one(stmts, old, new, make_mut):
     return rec(stmts)
 
 
+def _struct_field_types(doc):
+    """{struct name: {field name: head of the field's type name}}"""
+    out = {}
+    for fl in doc["files"]:
+        for it in fl["items"]:
+            if it.get("k") == "struct":
+                out[it["name"]] = {f["name"]: nows(f["ty"]).split("<")[0].split("::")[-1] for f in it.get("fields") or [] if f.get("name")}
+    return out
+
+
 def inline_helpers(doc, log):
     fns = all_fns(doc)
     free = {}
@@ -440,6 +450,7 @@ def inline_helpers(doc, log):
     if not free and not methods:
         return
     counter = [0]
+    struct_fields = _struct_field_types(doc)
 
     def callee_of(call, owner):
         """(fn, args) for a call node that targets a new private helper"""
@@ -453,13 +464,20 @@ def inline_helpers(doc, log):
         if call.get("k") == "mcall" and isinstance(call.get("recv"), dict) and call["recv"].get("k") == "path" and call["recv"].get("p") == "self" \
                 and owner and (owner, call["name"]) in methods and methods[(owner, call["name"])].get("receiver") in ("&self", "&mut self"):
             return methods[(owner, call["name"])], call["args"]
+        # `self.<field>.helper(..)`: a new private method of the type of one of the owner's fields (the helper's `self` is that field)
+        if call.get("k") == "mcall" and isinstance(call.get("recv"), dict) and call["recv"].get("k") == "field" and isinstance(call["recv"].get("e"), dict) \
+                and call["recv"]["e"].get("k") == "path" and call["recv"]["e"].get("p") == "self" and owner:
+            o2 = struct_fields.get(owner, {}).get(call["recv"]["name"])
+            if o2 and (o2, call["name"]) in methods and methods[(o2, call["name"])].get("receiver") in ("&self", "&mut self"):
+                return methods[(o2, call["name"])], call["args"], call["recv"]
         return None
 
     def expand(call, owner, under_try, fn_tail=False):
         got = callee_of(call, owner)
         if got is None:
             return None
-        fn, args = got
+        fn, args = got[0], got[1]
+        self_as = got[2] if len(got) > 2 else None
         params = [p for p in fn["params"] if p.get("name")]
         if len(params) != len(args):
             return None
@@ -495,6 +513,8 @@ def inline_helpers(doc, log):
             body[i_]["init"] = copy.deepcopy(st_["init"])
         env = {k + "__h%d" % counter[0] if False else k: v for k, v in env.items()}
         # parameters are not pidents of the body, so they kept their names
+        if self_as is not None:
+            env["self"] = (self_as, False, self_as)
         body = _subst(body, env)
         tail = None
         if body and body[-1].get("k") == "expr":
@@ -965,6 +985,126 @@ def range_contains(doc, log):
         fl["items"] = rw(fl["items"])
 
 
+# ----------------------------------------------------------------------------------------------
+# 9. configuration stored twice: `self.<sub>.<g>` is `self.<g'>` when the constructor hands the same immutable value to the sub-object's
+#    constructor (which stores it in g) and to the owner's own field g', and neither field is ever assigned afterwards
+
+
+def _ctor_literal(fn, names):
+    """the struct literal a constructor returns (tail `Ok(T {..})` or `T {..}`), or None"""
+    b = fn.get("body")
+    if not b or not b["stmts"] or b["stmts"][-1].get("k") != "expr":
+        return None
+    e = b["stmts"][-1]["e"]
+    if e.get("k") == "call" and isinstance(e.get("f"), dict) and e["f"].get("k") == "path" and e["f"]["p"] == "Ok" and len(e.get("args") or []) == 1:
+        e = e["args"][0]
+    if e.get("k") == "struct" and isinstance(e.get("fields"), list) and e.get("path", "").split("::")[-1].split("<")[0] in names:
+        return e
+    return None
+
+
+def _pat_names(p):
+    out = []
+    for x in walk(p or {}):
+        if x.get("k") == "pident":
+            out.append(x["name"])
+    return out
+
+
+def _stable_name(fn, name):
+    """`name` is a parameter or an immutable, once-bound `let` local of fn that is never assigned"""
+    binds = [x for x in walk(fn["body"]) if x.get("k") == "let" and name in _pat_names(x.get("pat"))]
+    isparam = any(p.get("name") == name for p in fn["params"])
+    if any(x.get("k") in ("assign", "opassign") and isinstance(x.get("l"), dict) and x["l"].get("k") == "path" and x["l"].get("p") == name for x in walk(fn["body"])):
+        return False
+    if isparam:
+        return not binds
+    return len(binds) == 1 and binds[0]["pat"].get("k") == "pident" and not binds[0]["pat"].get("mut")
+
+
+def subobject_alias(doc, log):
+    sf = _struct_field_types(doc)
+    impls = {}
+    for fl in doc["files"]:
+        for it in fl["items"]:
+            if it.get("k") == "impl" and it.get("self_name"):
+                impls.setdefault(it["self_name"], []).append(it)
+
+    def assigned_fields(tname):
+        out = set()
+        for im in impls.get(tname, []):
+            for fn in im["fns"]:
+                for x in walk(fn.get("body") or {}):
+                    if x.get("k") in ("assign", "opassign"):
+                        l = x["l"]
+                        chain = []
+                        while isinstance(l, dict) and l.get("k") in ("field", "index", "tfield"):
+                            if l.get("k") == "field":
+                                chain.append(l["name"])
+                            l = l["e"]
+                        if isinstance(l, dict) and l.get("k") == "path" and l.get("p") == "self" and chain:
+                            out.add(tuple(reversed(chain)))
+        return out
+
+    def ctor_of(tname):
+        ctors = [fn for im in impls.get(tname, []) if im.get("trait_name") is None for fn in im["fns"] if _ctor_literal(fn, (tname, "Self")) is not None]
+        return ctors[0] if len(ctors) == 1 else None
+
+    for owner, fields in sf.items():
+        for F, t2 in fields.items():
+            if t2 not in sf or t2 == owner or not impls.get(t2):
+                continue
+            sub_ctor, cfn = ctor_of(t2), ctor_of(owner)
+            if sub_ctor is None or cfn is None:
+                continue
+            params = [p.get("name") for p in sub_ctor["params"] if p.get("name")]
+            sub_map = {fld[0]: params.index(fld[1]["p"]) for fld in _ctor_literal(sub_ctor, (t2, "Self"))["fields"]
+                       if isinstance(fld[1], dict) and fld[1].get("k") == "path" and fld[1].get("p") in params and _stable_name(sub_ctor, fld[1]["p"])}
+            own = {fld[0]: fld[1] for fld in _ctor_literal(cfn, (owner, "Self"))["fields"]}
+            fe = own.get(F)
+            if not sub_map or not (isinstance(fe, dict) and fe.get("k") == "path" and _stable_name(cfn, fe["p"])):
+                continue
+            binds = [x for x in walk(cfn["body"]) if x.get("k") == "let" and _pat_names(x.get("pat")) == [fe["p"]]]
+            if len(binds) != 1 or not isinstance(binds[0].get("init"), dict) or binds[0]["init"].get("k") != "call":
+                continue
+            call = binds[0]["init"]
+            segs = [x.split("<")[0] for x in call["f"].get("p", "").split("::") if x and not x.startswith("<")] if isinstance(call.get("f"), dict) and call["f"].get("k") == "path" else []
+            if not segs or segs[-1] != sub_ctor["name"] or t2 not in segs:
+                continue
+            own_assigned, sub_assigned = assigned_fields(owner), assigned_fields(t2)
+            alias = {}
+            for g, i in sub_map.items():
+                if i >= len(call["args"]) or (g,) in sub_assigned or (F, g) in own_assigned or (F,) in own_assigned:
+                    continue
+                a = call["args"][i]
+                if not (isinstance(a, dict) and a.get("k") == "path" and _stable_name(cfn, a["p"])):
+                    continue
+                hits = [g2 for g2, e2 in own.items() if isinstance(e2, dict) and e2.get("k") == "path" and e2.get("p") == a["p"] and (g2,) not in own_assigned and g2 != F]
+                if len(hits) == 1:
+                    alias[g] = hits[0]
+            if not alias:
+                continue
+            n = [0]
+
+            def rw(x):
+                if isinstance(x, list):
+                    return [rw(y) for y in x]
+                if not isinstance(x, dict):
+                    return x
+                x = {k: (rw(v) if isinstance(v, (dict, list)) else v) for k, v in x.items()}
+                if x.get("k") == "field" and x.get("name") in alias and isinstance(x.get("e"), dict) and x["e"].get("k") == "field" and x["e"].get("name") == F \
+                        and isinstance(x["e"].get("e"), dict) and x["e"]["e"].get("k") == "path" and x["e"]["e"].get("p") == "self":
+                    n[0] += 1
+                    return {"k": "field", "e": x["e"]["e"], "name": alias[x["name"]], "ln": x.get("ln", 0)}
+                return x
+            for im in impls.get(owner, []):
+                for fn in im["fns"]:
+                    if fn.get("body"):
+                        fn["body"] = rw(fn["body"])
+            if n[0]:
+                log.append("%s: %d reads of self.%s.{%s} read the owner's own copy of the same constructor value" % (owner, n[0], F, ",".join(sorted(alias))))
+
+
 def normalise(doc):
     log = []
     canonical_fields(doc, log)
@@ -976,6 +1116,7 @@ def normalise(doc):
     try_helpers(doc, log)
     inline_helpers(doc, log)
     inline_expr_helpers(doc, log)
+    subobject_alias(doc, log)
     sink_unsafe(doc, log)
     setter_guards(doc, log)
     doc["normalisation_log"] = log
